@@ -27,6 +27,7 @@ type famOp struct {
 	Op     string  `json:"op"` // mk gen dup clone gensym gensymp str2sym evalfn evalfor readsym
 	Member int     `json:"m"`  // index into the family at that point (mod size)
 	Name   famName `json:"name,omitempty"`
+	Name2  famName `json:"name2,omitempty"` // joinsym: second part
 	Prefix string  `json:"prefix,omitempty"`
 }
 
@@ -35,7 +36,8 @@ type famScenario struct {
 	Ops []famOp `json:"ops"`
 }
 
-var famLits = []string{"a", "b", "foo", "__gensym", "__anon", "x9", "#lz", "?q", "a.b", ".dot", "k:", "x-y", "A", "a1"}
+// (decorated names next to their plain twins: a sigil, a dot or a trailing colon is part of the name)
+var famLits = []string{"a", "b", "foo", "__gensym", "__anon", "x9", "#lz", "lz", "?q", "q", "a.b", "c.b", "ab", ".dot", "dot", "k:", "k", "x-y", "A", "a1", "a:", "#a", "b.", "fo", "o"}
 var famPrefixes = []string{"__gensym", "__anon", "__loop", "__g", "p"}
 
 func genFamName(r *kernel.RNG) famName {
@@ -52,13 +54,16 @@ func genFamScenario(r *kernel.RNG, tier string, i int) interface{} {
 	if r.Chance(0.5) {
 		n = r.Range(2, 8)
 	}
-	w := []int{r.Range(1, 5), r.Range(1, 6), r.Range(1, 3), r.Range(0, 2), r.Range(0, 3), r.Range(0, 3), r.Range(0, 2), r.Range(0, 2), r.Range(0, 2), r.Range(0, 2), r.Range(0, 2)}
-	kinds := []string{"mk", "gen", "dup", "clone", "gensym", "gensymp", "str2sym", "evalfn", "evalfor", "readsym", "rmsym"}
+	w := []int{r.Range(1, 5), r.Range(1, 6), r.Range(1, 3), r.Range(0, 2), r.Range(0, 3), r.Range(0, 3), r.Range(0, 2), r.Range(0, 2), r.Range(0, 2), r.Range(0, 2), r.Range(0, 2), r.Range(0, 2), r.Range(0, 2), r.Range(0, 1)}
+	kinds := []string{"mk", "gen", "dup", "clone", "gensym", "gensymp", "str2sym", "evalfn", "evalfor", "readsym", "rmsym", "joinsym", "jsonsym", "root"}
 	for j := 0; j < n; j++ {
 		op := famOp{Op: kinds[r.Weighted(w)], Member: r.Intn(5)}
 		switch op.Op {
-		case "mk", "str2sym", "readsym", "rmsym":
+		case "mk", "str2sym", "readsym", "rmsym", "jsonsym":
 			op.Name = genFamName(r)
+		case "joinsym":
+			op.Name = genFamName(r)
+			op.Name2 = genFamName(r)
 		case "gen", "gensymp":
 			op.Prefix = r.Pick(famPrefixes)
 		}
@@ -116,10 +121,25 @@ func execFamily(body json.RawMessage) *kernel.Result {
 	root := zy.New(sc.Env)
 	defer root.Close()
 	fam := []*zygo.Zlisp{root}
-
-	returned := map[int]string{}  // number -> name, of every symbol ever handed out
-	byName := map[string]int{}    // name -> number
-	generated := map[string]bool{} // names of generated symbols
+	// a scenario may start further, unrelated interpreters in the same process ("root"): each is a family of its own
+	// with its own table and its own books; what one family does must not show in another
+	type books struct {
+		root      *zygo.Zlisp
+		returned  map[int]string  // number -> name, of every symbol ever handed out
+		byName    map[string]int  // name -> number
+		generated map[string]bool // names of generated symbols
+	}
+	newBooks := func(r *zygo.Zlisp) *books {
+		return &books{root: r, returned: map[int]string{}, byName: map[string]int{}, generated: map[string]bool{}}
+	}
+	families := []*books{newBooks(root)}
+	famOf := []int{0} // member index -> family index
+	cur := families[0]
+	returned, byName, generated := cur.returned, cur.byName, cur.generated
+	use := func(mi int) {
+		cur = families[famOf[mi]]
+		returned, byName, generated = cur.returned, cur.byName, cur.generated
+	}
 
 	fail := func(clause, site, f string, a ...interface{}) {
 		res.Violate("C19", clause, site, fmt.Sprintf(f, a...))
@@ -154,8 +174,9 @@ func execFamily(body json.RawMessage) *kernel.Result {
 		generated[name] = true
 		record(step, how, name, sym.Number())
 	}
-	invariants := func(step int) {
-		fwd, rev, _ := root.VerifSymtab()
+	invariants1 := func(step int, b *books) {
+		byName := b.byName
+		fwd, rev, _ := b.root.VerifSymtab()
 		if len(fwd) != len(rev) {
 			fail("C19.I1-bijection", "tables", "step %d: %d names but %d numbers in the shared tables", step, len(fwd), len(rev))
 			return
@@ -173,13 +194,22 @@ func execFamily(body json.RawMessage) *kernel.Result {
 			}
 		}
 	}
+	invariants := func(step int) {
+		for _, b := range families {
+			invariants1(step, b)
+		}
+	}
 
 	for step, op := range sc.Ops {
 		mi := op.Member % len(fam)
 		m := fam[mi]
+		use(mi)
 		_, _, myNext := m.VerifSymtab()
 		skew := 0
-		for _, o := range fam {
+		for oi, o := range fam {
+			if famOf[oi] != famOf[mi] {
+				continue
+			}
 			_, _, n := o.VerifSymtab()
 			if n > myNext {
 				skew = 1
@@ -210,6 +240,9 @@ func execFamily(body json.RawMessage) *kernel.Result {
 			record(step, "MakeSymbol", name, s.Number())
 			// any other member must see the same symbol
 			for oi, o2 := range fam {
+				if famOf[oi] != famOf[mi] {
+					continue
+				}
 				if s2 := o2.MakeSymbol(name); s2.Number() != s.Number() {
 					fail("C19.I2-same-name-same-symbol", "MakeSymbol", "step %d: member %d interned %q as #%d, member %d gets #%d", step, mi, name, s.Number(), oi, s2.Number())
 				}
@@ -249,6 +282,9 @@ func execFamily(body json.RawMessage) *kernel.Result {
 			if s, isSym := o.Val.(*zygo.SexpSymbol); o.OK() && isSym {
 				if s.Name() == name {
 					record(step, op.Op, name, s.Number())
+				} else if op.Op == "str2sym" {
+					// (the reader may split decorations off a name; str2sym is given the name itself)
+					fail("C19.I2-same-name-same-symbol", "str2sym", "step %d: %s returned the symbol named %q: a different name, so equal to (str2sym %q)", step, code, s.Name(), s.Name())
 				}
 			} else if o.Panicked {
 				fail("C19.P-panic", op.Op+"@"+o.Site, "step %d: %s panicked: %s", step, code, o.PanicMsg)
@@ -283,15 +319,56 @@ func execFamily(body json.RawMessage) *kernel.Result {
 				fail("C19.P-panic", "for@"+o.Site, "step %d: for panicked: %s", step, o.PanicMsg)
 			}
 			res.Tracef("%d evalfor %d", step, mi)
+		case "joinsym", "jsonsym":
+			name := resolve(op.Name)
+			code := ""
+			if op.Op == "joinsym" {
+				n2 := resolve(op.Name2)
+				code = fmt.Sprintf("(joinsym (str2sym %q) (str2sym %q))", name, n2)
+				name += n2
+			} else {
+				// a member name of decoded JSON is interned by the decoder
+				if strings.ContainsAny(name, "\"\\") || name == "Atype" || name == "zKeyOrder" {
+					break
+				}
+				code = fmt.Sprintf("(first (keys (unjson (raw %q))))", fmt.Sprintf("{%q:1}", name))
+			}
+			o := zy.Eval(m, code+" ", zy.DefaultBudget)
+			if s, isSym := o.Val.(*zygo.SexpSymbol); o.OK() && isSym {
+				if s.Name() == name {
+					record(step, op.Op, name, s.Number())
+					if s2 := m.MakeSymbol(name); s2.Number() != s.Number() {
+						fail("C19.I2-same-name-same-symbol", op.Op, "step %d: %s gave %q as #%d, MakeSymbol of the same name gives #%d", step, code, name, s.Number(), s2.Number())
+					}
+				} else if op.Op == "joinsym" {
+					fail("C19.I2-same-name-same-symbol", "joinsym", "step %d: %s returned the symbol named %q, not %q", step, code, s.Name(), name)
+				}
+				res.Probe(op.Op)
+			} else if o.Panicked {
+				fail("C19.P-panic", op.Op+"@"+o.Site, "step %d: %s panicked: %s", step, code, o.PanicMsg)
+			}
+			res.Tracef("%d %s %d", step, op.Op, mi)
+		case "root":
+			if len(families) < 3 && len(fam) < 5 {
+				nr := zy.New(sc.Env)
+				defer nr.Close()
+				fam = append(fam, nr)
+				famOf = append(famOf, len(families))
+				families = append(families, newBooks(nr))
+				res.Probe("unrelated-root")
+			}
+			res.Tracef("%d root", step)
 		case "dup":
 			if len(fam) < 5 {
 				fam = append(fam, m.Duplicate())
+				famOf = append(famOf, famOf[mi])
 				res.Probe("duplicate")
 			}
 			res.Tracef("%d dup %d", step, mi)
 		case "clone":
 			if len(fam) < 5 {
 				fam = append(fam, m.Clone())
+				famOf = append(famOf, famOf[mi])
 				res.Probe("clone")
 			}
 			res.Tracef("%d clone %d", step, mi)
@@ -303,19 +380,47 @@ func execFamily(body json.RawMessage) *kernel.Result {
 	}
 	// script-level agreement: == and hash lookups keyed by symbols follow name equality, in every member
 	if len(res.Violations) == 0 {
-		names := make([]string, 0, len(byName))
-		for n := range byName {
-			if zygo.SymbolRegex.MatchString(n) && !strings.ContainsAny(n, ".:") {
-				names = append(names, n)
-			}
-		}
-		sortStrings(names)
-		if len(names) > 4 {
-			names = names[:4]
-		}
 		for mi, m := range fam {
 			if mi > 2 {
 				break
+			}
+			use(mi)
+			names := make([]string, 0, len(byName))
+			var dotted []string
+			for n := range byName {
+				if zygo.SymbolRegex.MatchString(n) && !strings.ContainsAny(n, ".:") {
+					names = append(names, n)
+				}
+				if parts := strings.Split(n, "."); len(parts) == 2 && parts[0] != "" && parts[1] != "" && zygo.SymbolRegex.MatchString(parts[0]) && zygo.SymbolRegex.MatchString(parts[1]) && !strings.Contains(n, ":") {
+					dotted = append(dotted, n)
+				}
+			}
+			sortStrings(names)
+			sortStrings(dotted)
+			if len(names) > 4 {
+				names = names[:4]
+			}
+			// names with a dot in them are symbols like any other; here their heads happen to be bound to records
+			// whose members agree, as they may be in any script
+			if len(dotted) >= 2 && mi == 0 {
+				for _, d := range dotted {
+					parts := strings.Split(d, ".")
+					zy.Eval(m, fmt.Sprintf("(def %s (hash %s: 1)) ", parts[0], parts[1]), zy.DefaultBudget)
+				}
+				for i, a := range dotted {
+					for j, b := range dotted {
+						res.Execs++
+						o := zy.Eval(m, fmt.Sprintf("(== (quote %s) (quote %s)) ", a, b), zy.DefaultBudget)
+						bv, isB := o.Val.(*zygo.SexpBool)
+						if !o.OK() || !isB {
+							continue
+						}
+						res.Probe("dotted-names-compared")
+						if bv.Val != (i == j) {
+							fail("C19.I4-script-level", "==dotted", "member %d: (== %%%s %%%s) is %v", mi, a, b, bv.Val)
+						}
+					}
+				}
 			}
 			for i, a := range names {
 				for j, b := range names {
